@@ -87,8 +87,10 @@ def run_inspector(fmt, data, sizes):
     m = fi()
     insp = m.ALL_FORMATS[fmt]()
     exn = '-'
+    import insp_obs as _io
+    feeder = _io.Feeder(_io.container_kind(bytes(data), list(sizes)))     # chunk container varies per case (bytes, bytearray, re-used buffer, memoryview)
     for ch in split(data, sizes):
-        try: insp.eat_chunk(ch)
+        try: _io.eat(insp, ch, feeder)
         except Exception as e:
             exn = type(e).__name__; break
     insp.finish()
